@@ -802,6 +802,57 @@ impl Check for C05 {
                 return serde_json::to_value(PairCase { env, a, b, iso: true }).unwrap();
             }
         }
+        // one case in fifteen: X against X & Y (and the other way round) for two object or list-of-object types that are
+        // not related, named or inline in every combination: an intersection keeps both operands, whichever was
+        // converted first
+        if s.chance(1, 15) {
+            let leaf = |s: &mut Src| match s.below(3) {
+                0 => D::Num,
+                1 => D::Str,
+                _ => D::Bool,
+            };
+            let keys = ["a", "b", "c", "k"];
+            let (k1, k2) = (keys[s.below(2)], keys[2 + s.below(2)]);
+            let x = D::obj(vec![(k1, leaf(s), false)]);
+            let y = D::obj(vec![(k2, leaf(s), false)]);
+            let mut env2 = env.clone();
+            let mut name_it = |env2: &mut Env, d: D, s: &mut Src| -> D {
+                if env2.defs.len() < crate::den::DEF_NAMES.len() && s.chance(1, 2) {
+                    let i = env2.defs.len();
+                    env2.defs.push((crate::den::DEF_NAMES[i].to_string(), d));
+                    D::Ref(i)
+                } else {
+                    d
+                }
+            };
+            // the order of naming decides which atom is created first
+            let (x, y) = if s.chance(1, 2) {
+                let x = name_it(&mut env2, x, s);
+                let y = name_it(&mut env2, y, s);
+                (x, y)
+            } else {
+                let y = name_it(&mut env2, y, s);
+                let x = name_it(&mut env2, x, s);
+                (x, y)
+            };
+            let wrap = |d: D, w: usize| match w {
+                0 | 1 => d,
+                2 => D::Array(Box::new(d)),
+                _ => D::Tuple(vec![d], None),
+            };
+            let w = s.below(4);
+            let (x, y) = (wrap(x, w), wrap(y, w));
+            let both = if s.chance(1, 2) { D::Inter(vec![x.clone(), y.clone()]) } else { D::Inter(vec![y.clone(), x.clone()]) };
+            // sometimes the intersection sits under a property next to a plain use of one operand (the operand is then
+            // converted before the intersection is)
+            let (a, b) = match s.below(4) {
+                0 => (x.clone(), both),
+                1 => (both, x.clone()),
+                2 => (D::obj(vec![("p", x.clone(), false), ("q", x.clone(), false)]), D::obj(vec![("p", x.clone(), false), ("q", both, false)])),
+                _ => (D::obj(vec![("p", y.clone(), false), ("q", both, false)]), D::obj(vec![("q", y.clone(), false)])),
+            };
+            return serde_json::to_value(PairCase { env: env2, a, b, iso: false }).unwrap();
+        }
         // one case in twelve: a list with a rest against a union of tuples that covers it length by length (or just
         // fails to): the decision has to combine several negated tuples of different lengths
         if s.chance(1, 12) {
